@@ -92,3 +92,11 @@ package css_ast
 //@   trusted
 //@   opt pure
 //@   ensures true
+
+// C12: cascade layers are ordered by FIRST declaration, so removing an earlier @layer block as a "duplicate" of a
+// later identical one reorders the layers and flips which declaration wins. Duplicate-rule removal treats a
+// rule as dead when a later rule Equal()s it; an @layer block must therefore never compare equal to anything.
+//@ func (*RAtLayer).Equal
+//@   arith int
+//@   prop C12
+//@   ensures layer-blocks-are-never-duplicates: !result
